@@ -3,7 +3,7 @@ use super::{
     anonymous_function::parser as anonymous_function, assignment, block::parser as block,
     bytearray::parser as bytearray, if_else::parser as if_else, int::parser as int,
     list::parser as list, pair::parser as pair, record::parser as record,
-    record_update::parser as record_update, string::parser as string, tuple::parser as tuple,
+    record_update::parser as record_update, string::parser as string, tuple,
     var::parser as var, when::parser as when,
 };
 use crate::{
@@ -55,7 +55,7 @@ pub fn chain_start<'a>(
         record(expression.clone()),
         and_or_chain(expression.clone()),
         var(),
-        tuple(expression.clone()),
+        tuple::or_block(sequence.clone(), expression.clone()),
         bytearray(),
         list(expression.clone()),
         anonymous_function(sequence.clone()),
